@@ -311,6 +311,14 @@ func Run(c *engine.Ctx) {
 						if after := gen.Snap(other); after != before {
 							return engine.Violate("copy-independent", k.Name, "%s.Copy(): mutating %s of the %s changed the %s: %s", k.Name, devs[di].Label, []string{"copy", "source"}[side], on, gen.SnapDiff(before, after))
 						}
+						if side == 0 && !strings.Contains(bn, "aliased") {
+							// the copy is a value of its own: the same edit applied to a pristine clone of the source gives the same
+							// content (parts of the copy that share memory with each other would be edited in two places)
+							ref := proto.Clone(k.Bases()[bn])
+							if safeMutate(devs[di], ref) && gen.Snap(mut) != gen.Snap(ref) {
+								return engine.Violate("copy-independent", "self-aliased:"+k.Name, "%s.Copy(): editing %s of the copy changed more than that: %s", k.Name, devs[di].Label, gen.SnapDiff(gen.Snap(ref), gen.Snap(mut)))
+							}
+						}
 						if after := gen.SnapCap(other); after != beforeCap {
 							return engine.Violate("copy-independent", "beyond-length:"+k.Name, "%s.Copy(): mutating %s of the %s wrote into the %s's memory beyond a slice's length (shared backing array): %s", k.Name, devs[di].Label, []string{"copy", "source"}[side], on, gen.SnapDiff(beforeCap, after))
 						}
@@ -365,11 +373,18 @@ func Run(c *engine.Ctx) {
 								before[i] = gen.Snap(all[i])
 								beforeCap[i] = gen.SnapCap(all[i])
 							}
+							pristine := proto.Clone(all[ti])
 							if !safeMutate(devs[di], all[ti]) {
 								t.Outcome("path-not-applicable")
 								return nil
 							}
 							t.Validated(1)
+							if ti == 0 && !strings.Contains(an+bn, "aliased") {
+								// the result is a value of its own: the same edit applied to a clone taken before gives the same content
+								if safeMutate(devs[di], pristine) && gen.Snap(all[ti]) != gen.Snap(pristine) {
+									return engine.Violate("result-independent", "self-aliased:"+opn, "%s(%s,%s): editing %s of the result changed more than that: %s", opn, an, bn, devs[di].Label, gen.SnapDiff(gen.Snap(pristine), gen.Snap(all[ti])))
+								}
+							}
 							for i := range all {
 								if i == ti {
 									continue
